@@ -267,6 +267,13 @@ def r13_1(rep, M, rid):
                             ty = M.types_of(fq, el.value.value)
                             if any(x == ("obj", CLUSTER) for x in ty):
                                 sites.append((fq, n, norm(el.value.value), "inplace", el.value.attr))
+            if isinstance(n, ast.Delete):
+                for t in n.targets:
+                    if isinstance(t, ast.Subscript) and isinstance(t.value, ast.Attribute) and t.value.attr in state:
+                        ty = M.types_of(fq, t.value.value)
+                        if any(x == ("obj", CLUSTER) for x in ty) or (isinstance(t.value.value, ast.Name) and t.value.value.id == "self"
+                                                                      and M.enclosing_class(fq) == CLUSTER):
+                            sites.append((fq, n, norm(t.value.value), "inplace", t.value.attr))
             if isinstance(n, ast.Expr) and isinstance(n.value, ast.Call) and isinstance(n.value.func, ast.Attribute) \
                     and n.value.func.attr in LIST_MUT and isinstance(n.value.func.value, ast.Attribute) \
                     and n.value.func.value.attr in state:
